@@ -294,9 +294,14 @@ func runC17(c *Ctx) error {
 		{{Op: "subscribe", ID: 1, Query: 0}},
 		{{Op: "subscribe", ID: 1, Query: 0}, {Op: "pause", Arg: 300}, {Op: "mutate", ID: 1, Arg: 5}, {Op: "pause", Arg: 300}, {Op: "unsubscribe", ID: 1}, {Op: "change", Arg: 7}},
 		{{Op: "fail", Arg: 1}, {Op: "subscribe", ID: 1, Query: 4}, {Op: "unsubscribe", ID: 1}, {Op: "heal"}, {Op: "subscribe", ID: 1, Query: 0}, {Op: "pause", Arg: 400}},
+		// a resolver waiting on its context: ending the subscription must cancel the run first (initial run, and a re-run)
+		{{Op: "fail", Arg: 7}, {Op: "subscribe", ID: 1, Query: 4}, {Op: "pause", Arg: 3000}, {Op: "unsubscribe", ID: 1}, {Op: "echo", ID: 2}, {Op: "subscribe", ID: 1, Query: 0}, {Op: "heal"}},
+		{{Op: "subscribe", ID: 1, Query: 4}, {Op: "settle"}, {Op: "fail", Arg: 7}, {Op: "pause", Arg: 3000}, {Op: "unsubscribe", ID: 1}, {Op: "echo", ID: 2}, {Op: "heal"}},
 	} {
 		c17One(c, m, cnCase{Seed: 11, Actions: acts})
 	}
+	// the same with the socket closed while the resolver waits
+	c17One(c, m, cnCase{Seed: 12, CloseEarly: true, Actions: []cnAction{{Op: "fail", Arg: 7}, {Op: "subscribe", ID: 1, Query: 4}, {Op: "subscribe", ID: 2, Query: 4}, {Op: "pause", Arg: 3000}}})
 	n := c.N(150, 4000)
 	for i := 0; i < n && !c.Rep.ShouldStop(); i++ {
 		cs := cnCase{Seed: c.Rng.U64(), Actions: cnGenActions(c.Rng, 3+c.Rng.Intn(14))}
